@@ -14,8 +14,13 @@
 (* accepted iff l reaches Len(Trace) + 1 (TLC is then stopped).  If no behaviour gets there   *)
 (* the search space is exhausted and the high-water mark HW = the largest line index reached  *)
 (* names the first line that NO placement of the silent steps explains.                       *)
-(* Reduction (sound and complete): a Lin step commutes with the consumption of inv lines of   *)
-(* other threads to its right, so Lin steps are only tried immediately before a ret line.     *)
+(* Reduction (sound and complete).  Take any placement and move every Lin step as far to the  *)
+(* right as the order of the Lin steps and "before the thread's own ret line" allow (a Lin     *)
+(* step commutes with inv lines and with ret lines of other threads to its right).  Then every *)
+(* Lin step is followed by another Lin step or by its own thread's ret line.  So silent steps   *)
+(* are only tried when the next line is the ret of a thread T that has not taken effect yet,   *)
+(* in a chain that ends with T's (last) Lin step.  The disjuncts are ordered so that the      *)
+(* depth-first queue tries the shortest chain first.                                          *)
 (* Run with -workers 1 and the depth-first state queue.                                       *)
 EXTENDS KVStoreConc, Json
 
@@ -53,10 +58,12 @@ Consume ==
 
 Silent == /\ l <= N
           /\ Trace[l].op = "ret"
+          /\ pc[Trace[l].t] # "lin"
           /\ UNCHANGED l
-          /\ \E t \in Threads : Lin(t)
+          /\ \/ \E t \in Threads \ {Trace[l].t} : Lin(t)
+             \/ Lin(Trace[l].t)
 
-TNext == Consume \/ Silent
+TNext == Silent \/ Consume
 TSpec == TInit /\ [][TNext]_tvars
 
 HighWater == PrintT(<<"HW", TLCGet(1)>>)
